@@ -153,3 +153,49 @@ func TestVF_C07_Witness(t *testing.T) {
 	}
 	st.KnownResult(id, false, "timestamp deltas 2^30, -2^30-1 and 2^35 decode exactly")
 }
+
+// TestVF_C07_LogDecode: segments written by a real PartitionLog under upload faults with
+// appends during the in-flight upload (vf_c07_log_test.go) are handed to this module's decoder:
+// the concatenation over the stored segments must be exactly the produced records.
+func TestVF_C07_LogDecode(t *testing.T) {
+	st := vfkit.NewStats("C07", c07Mod+"-log")
+	defer st.Flush()
+	limit := c07DeltaFinding != "" && vfkit.Known(c07DeltaFinding)
+	rapid.Check(t, func(t *rapid.T) {
+		st.Eval()
+		c := c07GenCase(t, limit)
+		if c.Excluded {
+			st.ExcludedCase(c07DeltaFinding)
+		}
+		run, msg := c07RunLog(t, c, rapid.SampledFrom([]int32{1, 3, 100}).Draw(t, "interval"))
+		if msg == "" {
+			msg = c07CheckLogRun(c, run)
+		}
+		if msg != "" {
+			t.Fatalf("%s\nbatches %s bases %v\ntrace: %v", msg, c.Shape, c.Bases, run.Trace)
+		}
+		var got []Record
+		for _, s := range run.Stored {
+			recs, err := decodeSegment(s.Seg, "orders", 2)
+			if err != nil {
+				t.Fatalf("decodeSegment rejects stored segment %d: %v (trace %v)", s.Base, err, run.Trace)
+			}
+			got = append(got, recs...)
+		}
+		if d := c07Compare(got, c.Recs, "orders", 2); d != "" {
+			t.Fatalf("decoding the stored segments in base-offset order: %s (trace %v)", d, run.Trace)
+		}
+		if run.Failed > 0 {
+			st.Class("flush-failed")
+		}
+		if run.Injected > 0 {
+			st.Class("append-during-upload")
+		}
+		if run.Failed > 0 && run.Injected > 0 {
+			st.Class("append-during-failing-upload")
+			if st.NonTrivial(c.Shape, c.Bases[0], run.Trace) {
+				st.Sample(map[string]any{"shape": c.Shape, "trace": run.Trace, "segments": len(run.Stored)})
+			}
+		}
+	})
+}
